@@ -29,6 +29,8 @@ import I3.Gen.GoChkFFG
 import I3.Gen.GoChkFFLimb
 import I3.Gen.GoChkFFGLimb
 import I3.Gen.GoPoseidonLimb
+import I3.Gen.GoMimc7Limb
+import I3.Gen.GoBabyjubLimb
 open I3 I3.Gen.Go
 
 def parseInt? (s : String) : Option Int := s.toInt?
@@ -433,7 +435,7 @@ def okOp (op : String) (pat : String) (args : List String) : Option String := do
   | "ffg.setbigint", [v] => pure (b (ffgl_Element_SetBigInt_ok (stale 1) (← parseInt? v)))
   | _, _ => pure "-"
 
-/-- mode `limb`: the Poseidon ops through the LIMB TWIN of package poseidon (`I3.Gen.GoPoseidonLimb`: the same Go
+/-- mode `limb`: the Poseidon and MiMC7 ops through the LIMB TWINS of packages poseidon and mimc7 (`I3.Gen.GoPoseidonLimb`, `I3.Gen.GoMimc7Limb`: the same Go
     source translated a second time with an `ff.Element` as its four Montgomery limbs, arithmetic = the T2 kernels,
     tables = `I3.Go.Ext.poseidon_c_limbs`); same result format as mode `gen`, `-` for every other op. -/
 def limbTwinOp (op : String) (_pat : String) (args : List String) : Option String := do
@@ -454,6 +456,69 @@ def limbTwinOp (op : String) (_pat : String) (args : List String) : Option Strin
     match poseidonl_HashWithState (← parseIntList? inp) (← parseInt? st) with
     | (r, none) => pure (toString r)
     | (_, some e) => pure (classifyErr e)
+  -- package mimc7 through its limb twin (`I3.Gen.GoMimc7Limb`; the round constants are `mimc7l_constants`, the
+  -- limb-mode translation of `generateConstantsData()`)
+  | "mimc7.hash", [arr, key] =>
+    let key ← if key = "nil" then pure none else (parseInt? key).map some
+    match mimc7l_Hash (← parseIntList? arr) key with
+    | (r, none) => pure (toString r)
+    | (_, some e) => pure (classifyErr e)
+  | "mimc7.hashgeneric", [iv, arr, n] =>
+    match mimc7l_HashGeneric (← parseInt? iv) (← parseIntList? arr) (← parseInt? n) with
+    | (r, none) => pure (toString r)
+    | (_, some e) => pure (classifyErr e)
+  | "mimc7.mimc7hash", [x, kk] => pure (toString (mimc7l_MIMC7Hash (← parseInt? x) (← parseInt? kk)))
+  | "mimc7.mimc7hashgeneric", [x, kk, n] =>
+    pure (toString (mimc7l_MIMC7HashGeneric (← parseInt? x) (← parseInt? kk) (← parseInt? n)))
+  | "mimc7.hashbytes", [b] =>
+    match mimc7l_HashBytes (← parseBytes? b) with
+    | (r, none) => pure (toString r)
+    | (_, some e) => pure (classifyErr e)
+  -- package babyjub through its limb twins (`I3.Gen.GoBabyjubLimb`: projective addition, double-and-add, the
+  -- conversion back with `ffl_inverse`, and the EdDSA entry points above them; hashes = the limb twins above)
+  | "bj.add", [x1, y1, x2, y2] =>
+    let p := babyjubl_Point_Projective ((← parseInt? x1), (← parseInt? y1))
+    let r := babyjubl_Point_Projective ((← parseInt? x2), (← parseInt? y2))
+    let recv := if _pat = "zx" then p else if _pat = "zy" then r else babyjubl_NewPointProjective
+    let (res, recv') := babyjubl_PointProjective_Add recv p r
+    if res != recv' then pure "!result-not-receiver" else
+    pure (showPt (babyjubl_PointProjective_Affine res))
+  | "bj.mul", [s, x, y] =>
+    pure (showPt (babyjubl_Point_Mul babyjub_NewPoint (← parseInt? s) ((← parseInt? x), (← parseInt? y))).1)
+  | "bj.mulconst", [s] => pure (showPt (babyjubl_Point_Mul babyjub_NewPoint (← parseInt? s) I3.Go.Ext.babyjub_B8).1)
+  | "bj.insubgroup", [x, y] => pure (showBool (babyjubl_Point_InSubGroup ((← parseInt? x), (← parseInt? y))))
+  | "bj.mulrecv", [s, x, y] =>
+    let q := ((← parseInt? x), (← parseInt? y))
+    let recv0 : Int × Int := if _pat = "self" then q else if _pat = "dirty" then (12345, 67890) else (0, 1)
+    let r := babyjubl_Point_Mul recv0 (← parseInt? s) q
+    pure s!"{showPt r.1} recv={showPt r.2}"
+  | "ed.public", [key] => pure (showPt (babyjubl_PrivateKey_Public (← parseBytes? key)))
+  | "ed.sign", [h, key, msg] =>
+    let r ← if h = "poseidon" then pure (babyjubl_PrivateKey_SignPoseidon (← parseBytes? key) (← parseInt? msg))
+      else if h = "mimc7" then pure (babyjubl_PrivateKey_SignMimc7 (← parseBytes? key) (← parseInt? msg)) else none
+    match r with
+    | (s, none) => pure s!"{showSig s} {showBytes (babyjub_Signature_Compress s)}"
+    | (_, some e) => pure (classifyErr e)
+  | "ed.verify", [h, ax, ay, msg, rx, ry, s] =>
+    let pk := ((← parseInt? ax), (← parseInt? ay))
+    let sig := (((← parseInt? rx), (← parseInt? ry)), (← parseInt? s))
+    let r ← if h = "poseidon" then pure (babyjubl_PublicKey_VerifyPoseidon pk (← parseInt? msg) sig)
+      else if h = "mimc7" then pure (babyjubl_PublicKey_VerifyMimc7 pk (← parseInt? msg) sig) else none
+    match r with
+    | none => pure "ok"
+    | some e => pure (classifyErr e)
+  | "ed.verifycomp", [h, pkc, msg, sc] =>
+    match babyjub_PublicKeyComp_Decompress (← parseBytes? pkc) with
+    | (_, some e) => pure ("pk:" ++ classifyErr e)
+    | (pk, none) =>
+      match babyjub_SignatureComp_Decompress (← parseBytes? sc) with
+      | (_, some e) => pure ("sig:" ++ classifyErr e)
+      | (sig, none) =>
+        let r ← if h = "poseidon" then pure (babyjubl_PublicKey_VerifyPoseidon pk (← parseInt? msg) sig)
+          else if h = "mimc7" then pure (babyjubl_PublicKey_VerifyMimc7 pk (← parseInt? msg) sig) else none
+        match r with
+        | none => pure "ok"
+        | some e => pure (classifyErr e)
   | _, _ => pure "-"
 
 def step (mode : String) (line : String) : String :=
